@@ -192,5 +192,70 @@ def rejections(job):
             job.prove("C14/add/non_negative", leaf.conds() + [a.t >= 0, b.t >= 0], lift(leaf.value.value) != a.t + b.t, R, {})
 
 
+XHAIR = '''
+from pyvaporation.permeance.permeance import Permeance, Units
+from pyvaporation.components import Components
+
+
+def clamp_never_negative(v: float) -> float:
+    """
+    post: _ >= 0
+    """
+    return Permeance(value=v).value
+
+
+def unknown_source_unit_raises(v: float) -> float:
+    """
+    pre: v >= 0
+    raises: KeyError, ValueError
+    post: False
+    """
+    return Permeance(value=v, units="bar").convert(Units.SI, Components.H2O).value
+
+
+def unknown_target_unit_raises(v: float) -> float:
+    """
+    pre: v >= 0
+    raises: KeyError, ValueError
+    post: False
+    """
+    return Permeance(value=v, units=Units.GPU).convert("bar", Components.H2O).value
+
+
+def missing_component_to_kg_raises(v: float) -> float:
+    """
+    pre: v >= 0
+    raises: KeyError, ValueError
+    post: False
+    """
+    return Permeance(value=v, units=Units.SI).convert(Units.kg_m2_h_kPa).value
+
+
+def missing_component_from_kg_raises(v: float) -> float:
+    """
+    pre: v >= 0
+    raises: KeyError, ValueError
+    post: False
+    """
+    return Permeance(value=v, units=Units.kg_m2_h_kPa).convert(Units.GPU).value
+
+
+def same_units_is_identity(v: float) -> float:
+    """
+    pre: v >= 0
+    post: _ == v
+    """
+    return Permeance(value=v, units=Units.GPU).convert(Units.GPU).value
+'''
+
+
+def crosshair(job):
+    from .. import xhair
+    xhair.run_contracts(job, "C14", XHAIR, timeout=30)
+
+
 def jobs(tier):
-    return [("conversions", "conversions", {}), ("rejections", "rejections", {})]
+    js = [("conversions", "conversions", {}), ("rejections", "rejections", {})]
+    if tier == "thorough":
+        js.append(("crosshair", "crosshair", {}))
+    return js
